@@ -425,6 +425,15 @@ func (r *Reconciler) reconcileAbort(ctx context.Context, proposal *configapi.Pro
 			return controller.Result{}, nil
 		}
 
+		// Whatever is still missing for the abort to finish (the predecessor may not be applied for a long time:
+		// its target is not connected), once the committed index has passed this proposal the successor that
+		// waits for it can go on, and nothing else wakes it
+		if config.Status.Committed.Index >= proposal.TransactionIndex && proposal.Status.NextIndex != 0 {
+			return controller.Result{
+				Requeue: controller.NewID(proposalstore.NewID(proposal.TargetID, proposal.Status.NextIndex)),
+			}, nil
+		}
+
 	case configapi.ProposalAbortPhase_ABORTED:
 		// The abort moved the committed index past this proposal: wake the successor that waits for it
 		if proposal.Status.NextIndex != 0 {
